@@ -114,7 +114,7 @@ theorem findVar_cons (s : Scope) (e : VarEntry) (y : Bytes) :
   simp only [findVar, List.find?_cons]
   cases e.name == y <;> rfl
 
-theorem findVar_updateTy : ∀ (s : Scope) (x y : Bytes) (t : VType), (findVar s x).isSome = true →
+theorem findVar_updateTy_some : ∀ (s : Scope) (x y : Bytes) (t : VType), (findVar s x).isSome = true →
     (findVar (updateTy s x t) y).map (·.ty) = if x == y then some t else (findVar s y).map (·.ty)
   | [], _, _, _, h => by simp [findVar] at h
   | e :: s, x, y, t, h => by
@@ -127,7 +127,7 @@ theorem findVar_updateTy : ∀ (s : Scope) (x y : Bytes) (t : VType), (findVar s
       · have he' : (e.name == x) = false := by simpa using he
         have hs : (findVar s x).isSome = true := by simpa [findVar_cons, he'] using h
         simp only [he', Bool.false_eq_true, if_false, findVar_cons]
-        have ih := findVar_updateTy s x y t hs
+        have ih := findVar_updateTy_some s x y t hs
         by_cases hey : e.name = y
         · have h1 : (e.name == y) = true := by simpa using hey
           have h2 : (x == y) = false := by simpa using fun h' : x = y => he (hey.trans h'.symm)
@@ -254,7 +254,7 @@ mutual
           simp only [List.append_eq_nil_iff] at hc
           have hty := typeOf_eq hR.rel e
           refine { toBRel := hR.toBRel, cur := fun y => ?_ }
-          rw [tFind_tDeclare, hty, findVar_updateTy _ _ _ _ (by simp [hfv])]
+          rw [tFind_tDeclare, hty, findVar_updateTy_some _ _ _ _ (by simp [hfv])]
           split
           · rfl
           · exact hR.cur y
